@@ -207,6 +207,14 @@ def multi_centre(ctx):
     # centres (added after seeded change C17-B was missed): distances must not lose digits
     pts = np.vstack([POINTS + FAR, CENTRES + FAR + NEAR, PC + FAR + NEAR[:2]])
     _multi(ctx, pts, CENTRES + FAR, TIGHT, PC + FAR, np.array([1e5, 2e3]), "far-from-origin")
+    # distinct centres that almost coincide (a finite-difference pair, a polarisation function 1e-6 bohr off its s
+    # centre), 10 bohr from the origin so that they agree to 1e-6 relative: each function must still be evaluated at
+    # its own centre (added after seeded change C17-D was missed)
+    base = np.array([10.0, -7.0, 3.0])
+    near_s = base + np.array([[0.0, 0.0, 0.0], [1e-5, 0.0, 0.0], [1e-5, 1e-7, 0.0]])
+    near_p = base + np.array([[1e-5, 1e-7, 1e-6], [1e-5, 1e-7, 3e-6]])
+    pts = np.vstack([base + np.array([[0.3, 0.1, -0.2], [1e-3, 0.0, 0.0], [0.0, 2e-5, 0.0], [5e-6, 0.0, 0.0], [-1.5, 2.0, 0.5]]), near_s[:2]])
+    _multi(ctx, pts, near_s, np.array([3e9, 3e9, 1e10]), near_p, np.array([2e10, 5e9]), "near-coincident-centres")
 
 
 def _dist(points, centre):
